@@ -42,9 +42,9 @@ def check(v, tier, opts):
                     "{0,1} quick, {0..N-1} thorough; ndarray view steps {1,2,-1} quick, + {3,-2} thorough")
     v.bounds.append("end-to-end witnesses: N = 2 quick, 3 (4) thorough; window 1..=N+2, min_periods None or 0..=N+2; "
                     "vshift lags -N-1..=N+1 enumerated by a concrete loop; Option<i32> values with |x| < 2^20 where an "
-                    "i32 running sum is formed; quick: ts_vsum Vec vs wrapped VecDeque / reversed ndarray view, vshift Vec "
+                    "i32 running sum is formed; quick: ts_vsum Vec vs wrapped VecDeque / reversed ndarray view, ts_vmin Vec vs wrapped VecDeque (N = 3), ts_vsum_to into a strided (step 2) Array1 view, vshift Vec "
                     "vs VecDeque, vsum+vmax over [T;N] / VecDeque / reversed view, ts_vsum returned vs ts_vsum_to into "
-                    "VecDeque and Array1 buffers; thorough adds ts_vmin, rolling_apply Some(out), vshift vs Array1, "
+                    "VecDeque and Array1 buffers; thorough adds ts_vmin at N = 2, the strided out view at N = 3, rolling_apply Some(out), vshift vs Array1 (N = 2 only: N = 3 ran the SAT back end out of memory), "
                     "vsum/vmax over strided view / Arc / Array1")
     v.outside.append("Polars backend (polars-core / arrow object graph not encodable in CBMC): chunked arrays, validity bitmaps")
     v.outside.append("the full function x backend x output matrix is not enumerated: agreement follows from accessor "
